@@ -1,3 +1,48 @@
 package main
 
-func selftest() int { return 0 }
+import (
+	"fmt"
+	"os"
+	"os/exec"
+	"time"
+
+	ex "bklsym/exec"
+)
+
+// selftest: the solver is present and answers; the engine's symbolic string
+// models agree with the real library functions on a table of inputs (each
+// input is a symbolic string pinned by an assumption, so the symbolic model
+// is what runs).
+func selftest() int {
+	out, err := exec.Command("z3", "--version").CombinedOutput()
+	if err != nil {
+		fmt.Fprintf(os.Stderr, "selftest: z3 not runnable: %v\n", err)
+		return 2
+	}
+	fmt.Printf("selftest: %s", out)
+	ps := pkgSpecs["bkl"]
+	sh, err := loadPkg(ps, 0)
+	if err != nil {
+		fmt.Fprintln(os.Stderr, "selftest: load:", err)
+		return 2
+	}
+	rep, err := ex.Explore(sh, ex.ExploreConfig{
+		Harness: "HarnessSelf_models", PkgPath: ps.Path, Workers: 8,
+		Solver: []string{"z3", "-in"}, TimeoutMS: 10000,
+		Cfg:      ex.Config{MaxSteps: 5_000_000, MaxFrames: 20000},
+		Deadline: time.Now().Add(5 * time.Minute),
+	})
+	if err != nil {
+		fmt.Fprintln(os.Stderr, "selftest:", err)
+		return 2
+	}
+	if !rep.Complete || len(rep.Candidates) > 0 || rep.Covers["self.checked"] == 0 {
+		printReport(rep)
+		for _, c := range rep.Candidates {
+			fmt.Fprintf(os.Stderr, "selftest: model disagreement: %s %s\n", c.AssertID, c.Msg)
+		}
+		return 2
+	}
+	fmt.Printf("selftest: string models agree with the library on %d paths (%d assertions)\n", rep.OK, rep.Asserts)
+	return 0
+}
